@@ -226,13 +226,13 @@ def format_num(
 
     if thousands_sep is None:
         thousands_sep = locale.localeconv().get("thousands_sep", "_")  # type: ignore
-    if thousands_sep != "_":
-        result = result.replace("_", thousands_sep)
-
     if decimal_point is None:
         decimal_point = locale.localeconv().get("decimal_point", ".")  # type: ignore
-    if decimal_point != ".":
-        result = result.replace(".", decimal_point)
+    # Both separators are replaced in one pass: a thousands separator "."
+    # must not be replaced again by the decimal point.
+    if thousands_sep != "_" or decimal_point != ".":
+        result = result.translate(
+            str.maketrans({"_": thousands_sep, ".": decimal_point}))
 
     if pct:
         return result + "%"
